@@ -45,3 +45,12 @@ man = dict(version=1, setup_cmd='sh ./setup.sh',
            not_applicable=na)
 json.dump(man, open(os.path.join(ROOT, 'MANIFEST.json'), 'w'), indent=1)
 print('claimed', len(claimed), 'not_applicable', len(na))
+
+
+# validate against the task's schema (jsonschema lives in the tooling venv)
+import subprocess as _sp
+_r = _sp.run(['python3-vt', '-c', "import json, jsonschema; jsonschema.validate(json.load(open('/verif/MANIFEST.json')), json.load(open('/root/.vp/MANIFEST.schema.json'))); print('MANIFEST.json validates')"],
+             capture_output=True, text=True)
+print((_r.stdout or _r.stderr).strip().splitlines()[-1] if (_r.stdout or _r.stderr).strip() else 'validation skipped')
+if _r.returncode != 0:
+    raise SystemExit('MANIFEST.json does NOT validate against /root/.vp/MANIFEST.schema.json')
